@@ -263,3 +263,29 @@ harness_p!(pan_hash_in_insert__s8_4a_at2, pan_hash_in_insert, S8_4A, 2);
 harness_p!(pan_hash_in_insert__s8_8g4_at1, pan_hash_in_insert, S8_8G4, 1);
 harness_p!(pan_hash_in_insert__u4f_at2, pan_hash_in_insert, U4F, 2);
 harness_p!(pan_hash_in_insert__u4f_at0, pan_hash_in_insert, U4F, 0);
+
+/// Hash invoked from `reserve`'s move-everything path (carry_all): same instant check.
+fn pan_hash_in_reserve(sh: Shape, at: usize) {
+    let mut m: HashMap<Hk, u8, S> = build::<Hk, u8>(sh, 1);
+    assume_distinct(&m);
+    unsafe {
+        HASH_CALLS = 0;
+        HASH_AT = at;
+        HASH_MAP = &m;
+        HASH_SEEN_IN_FLIGHT = false;
+    }
+    // the least amount the main table cannot absorb next to the leftovers: carry_all, then grow
+    let add = m.capacity() - m.len();
+    m.reserve(add);
+    let calls = unsafe { HASH_CALLS };
+    unsafe {
+        HASH_MAP = core::ptr::null();
+    }
+    kani::cover!(calls > at, "cls: crash point reached");
+    kani::cover!(unsafe { HASH_SEEN_IN_FLIGHT }, "cls: the hashed element was in flight (removed from the old table, not yet in the new one)");
+    kani::cover!(true, "reach: end of harness");
+    core::mem::forget(m);
+}
+harness_p!(pan_hash_in_reserve__s8_4a_at0, pan_hash_in_reserve, S8_4A, 0);
+harness_p!(pan_hash_in_reserve__s8_4a_at1, pan_hash_in_reserve, S8_4A, 1);
+harness_p!(pan_hash_in_reserve__s8_8g4_at1, pan_hash_in_reserve, S8_8G4, 1);
